@@ -155,6 +155,65 @@ def free_run(args):
     return dict(trace=lines, mism=[], skipped=None)
 
 
+def two_type_project(at):
+    """A generated project with two population types, each with a residual junction (the '>' links of both types sit in one list of the
+    framework): structure none of the repository's fixtures has."""
+    import io
+
+    import sciris as sc
+    import xlsxwriter
+
+    f = io.BytesIO()
+    wb = xlsxwriter.Workbook(f)
+    wb.set_properties({"category": "atomica:framework"})
+
+    def sheet(name, rows):
+        ws = wb.add_worksheet(name)
+        for i, r in enumerate(rows):
+            for j, c in enumerate(r):
+                if c is not None:
+                    ws.write(i, j, c)
+
+    sheet("Population types", [["Code name", "Description"], ["hum", "Humans"], ["vec", "Vectors"]])
+    sheet("Databook Pages", [["Datasheet Code Name", "Datasheet Title"], ["sv", "State"], ["pa", "Pars"]])
+    comps = [["Code Name", "Display Name", "Is Source", "Is Sink", "Is Junction", "Setup Weight", "Default Value", "Databook Page", "Population type"]]
+    for tp in ("h", "v"):
+        t = "hum" if tp == "h" else "vec"
+        comps += [[tp + "s", "C " + tp + "s", "n", "n", "n", 1, 0, "sv", t], [tp + "j", "C " + tp + "j", "n", "n", "y", 0, None, None, t],
+                  [tp + "a", "C " + tp + "a", "n", "n", "n", 1, 0, "sv", t], [tp + "b", "C " + tp + "b", "n", "n", "n", 1, 0, "sv", t]]
+    sheet("Compartments", comps)
+    rows = []
+    for tp in ("h", "v"):
+        names = [tp + x for x in "sjab"]
+        M = {a: {b: None for b in names} for a in names}
+        M[tp + "s"][tp + "j"] = tp + "go"
+        M[tp + "j"][tp + "a"] = tp + "q"
+        M[tp + "j"][tp + "b"] = ">"
+        M[tp + "a"][tp + "s"] = tp + "back"
+        M[tp + "b"][tp + "s"] = tp + "back"
+        rows += [["hum" if tp == "h" else "vec"] + names] + [[a] + [M[a][b] for b in names] for a in names] + [[]]
+    sheet("Transitions", rows)
+    sheet("Characteristics", [["Code Name", "Display Name", "Components", "Denominator", "Default Value", "Setup Weight", "Databook Page", "Population type"],
+                              ["halive", "Ch h", "hs, ha, hb", None, 0, 0, None, "hum"], ["valive", "Ch v", "vs, va, vb", None, 0, 0, None, "vec"]])
+    pars = [["Code Name", "Display Name", "Format", "Timescale", "Default Value", "Minimum Value", "Maximum Value", "Function", "Databook Page", "Population type"]]
+    for tp in ("h", "v"):
+        t = "hum" if tp == "h" else "vec"
+        pars += [[tp + "go", "P " + tp + "go", "rate", 1, 0.8 if tp == "h" else 1.6, 0, None, None, "pa", t], [tp + "q", "P " + tp + "q", "proportion", None, 0.3 if tp == "h" else 0.45, 0, None, None, "pa", t],
+                 [tp + "back", "P " + tp + "back", "probability", 1, 0.2, 0, None, None, "pa", t]]
+    sheet("Parameters", pars)
+    sheet("Cascades", [["Cascade", "Constituents"], ["All", "halive"], ["A", "ha"]])
+    wb.close()
+    Fw = at.ProjectFramework(sc.Spreadsheet(f))
+    pops = sc.odict([("h1", {"label": "Humans 1", "type": "hum"}), ("v1", {"label": "Vectors 1", "type": "vec"}), ("v2", {"label": "Vectors 2", "type": "vec"})])
+    D = at.ProjectData.new(Fw, np.array([2018.0]), pops=pops, transfers=0)
+    for name, val in (("hs", 640.0), ("ha", 64.0), ("hb", 0.0), ("vs", 5120.0), ("va", 0.0), ("vb", 128.0)):
+        for ts in D.tdve[name].ts.values():
+            ts.insert(2018.0, val)
+    P = at.Project(framework=Fw, databook=D.to_spreadsheet(), do_run=False)
+    P.settings.update_time_vector(start=2018, end=2021, dt=0.25)
+    return P
+
+
 def fixture_projects(at):
     """Foreign executions with timed compartments and junctions: the repository's own test fixtures (and sir_vaccine), driven the
     way the tests drive them. Fixtures that do not load are skipped (and listed in the evidence)."""
@@ -183,6 +242,10 @@ def fixture_projects(at):
         except Exception as ex:
             skipped.append((name, type(ex).__name__))
     try:
+        out.append(("two_types_residual", two_type_project(at)))
+    except Exception as ex:
+        skipped.append(("two_types_residual", type(ex).__name__ + ": " + str(ex)[:80]))
+    try:
         out.append(("sir_vaccine", at.Project(framework=os.path.join(str(at.LIBRARY_PATH), "sir_vaccine_framework.xlsx"), databook=os.path.join(str(at.LIBRARY_PATH), "sir_vaccine_databook.xlsx"), do_run=False)))
     except Exception as ex:
         skipped.append(("sir_vaccine", type(ex).__name__))
@@ -192,7 +255,7 @@ def fixture_projects(at):
 FIXTURES_SKIPPED = []
 
 
-QUICK_FIXTURES = {"timed_test", "timed_transfer_2", "junction_remainder", "junction_feed_forward_timed", "junction_timed_remainder", "sir_vaccine"}
+QUICK_FIXTURES = {"two_types_residual", "timed_test", "timed_transfer_2", "junction_remainder", "junction_feed_forward_timed", "junction_timed_remainder", "sir_vaccine"}
 
 
 def fixture_traces(outdir, nsteps, only=None):
